@@ -6,6 +6,7 @@ import os
 from . import core, walks
 
 REGISTRY = {}
+_PROVED = {}
 
 
 def prop(pid):
@@ -23,6 +24,8 @@ SIZES = {  # (cases, plies) per tier for the walk family
 
 def prove(pid, rep, thorough_extra=True):
     """Steps 1-2 of the protocol. Returns dict of audited theorems; records broken ties."""
+    if pid in _PROVED:          # widening rounds of one ./check invocation: the proof step has been done
+        return _PROVED[pid]
     info = {"extract": None, "theorems": {}}
     try:
         info["extract"] = core.extract_for(pid)
@@ -43,6 +46,7 @@ def prove(pid, rep, thorough_extra=True):
         if rep.tier == "thorough" and thorough_extra:
             core.leanchecker(f"Chess.Props.{pid}")
             info["leanchecker"] = True
+        _PROVED[pid] = info
     except core.Broken as b:
         rep.broken = b
     return info
